@@ -1,2 +1,229 @@
-(* C20 proofs (under construction) *)
-From V Require Export Pool.PoolMaps.
+(* C20 — proofs, summary: the clauses of the property stated on the CODE model (Pool/PoolModel.v, repaired code)
+   for ALL operation sequences, obtained from the refinement theorems of
+     PoolMaps.v (association lists; slashing and exit pools)   PoolBits.v (byte-level bit lists)
+     PoolAtt.v  (attestation pool)                              PoolSync.v (sync-committee pool)
+   and the machine-checked witnesses of the defects of the pinned snapshot ([_refuted]). *)
+From Coq Require Import NArith List Bool Lia Permutation.
+From V Require Import Base.U64 Base.Outcome Pool.PoolModel Pool.PoolSpec.
+From V Require Export Pool.PoolMaps Pool.PoolBits Pool.PoolAtt Pool.PoolSync.
+Import ListNotations.
+Local Open Scope N_scope.
+
+(* "after the calls [ops], the call [op] answers [o]" *)
+Definition a_answers (ops : list aop) (op : aop) (o : aout) : Prop :=
+  ap_run fixed ap_init (ops ++ [op]) = ap_run fixed ap_init ops ++ [o].
+Definition s_answers (ops : list sop) (op : sop) (o : sout) : Prop :=
+  sp_run fixed sp_init (ops ++ [op]) = sp_run fixed sp_init ops ++ [o].
+Definition k_answers (ops : list kop) (op : kop) (o : kout) : Prop :=
+  kp_run kp_init (ops ++ [op]) = kp_run kp_init ops ++ [o].
+
+Lemma aout_equiv_add o b : aout_equiv o (ARAdd b) -> o = ARAdd b.
+Proof. destruct o; simpl; intros H; try discriminate; exact H. Qed.
+Lemma aout_equiv_search o l : aout_equiv o (ARSearch l) -> exists l', o = ARSearch l' /\ Permutation l' l.
+Proof. destruct o; simpl; intros H; try discriminate. exists l0. split; [reflexivity | exact H]. Qed.
+Lemma Permutation_filter {A} (f : A -> bool) l l' : Permutation l l' -> Permutation (filter f l) (filter f l').
+Proof.
+  induction 1; simpl.
+  - constructor.
+  - destruct (f x); [constructor|]; assumption.
+  - destruct (f x), (f y); try apply Permutation_refl. apply perm_swap.
+  - eapply Permutation_trans; eassumption.
+Qed.
+
+(* ================================================================================================ *)
+(** * add_no_panic *)
+Theorem add_no_panic_attestations : forall ops, Forall aop_wf ops -> ~ In ARPanic (ap_run fixed ap_init ops).
+Proof. exact ap_no_panic. Qed.
+Theorem add_no_panic_slashings_exits : forall ops, ~ In KRPanic (kp_run kp_init ops).
+Proof. exact kp_add_no_panic. Qed.
+Theorem add_no_panic_sync : forall ops, Forall sop_ok ops -> ~ In SRPanic (sp_run fixed sp_init ops).
+Proof. exact sp_no_panic. Qed.
+
+(* ================================================================================================ *)
+(** * add_dup_absorbed *)
+(* a stored aggregate added again: nil, and the pool is in the state it was in (every later answer is the same) *)
+Theorem add_dup_absorbed_aggregate : forall ops a comm, Forall aop_wf ops -> wf_bits (a_bits a) ->
+  In (a, comm) (as_kept (as_after ops)) ->
+  a_answers ops (AAdd a comm) (ARAdd true) /\ as_after (ops ++ [AAdd a comm]) = as_after ops.
+Proof.
+  intros ops a comm Hwf Ha Hin.
+  pose proof (as_dup_aggregate (as_after ops) a comm (S_inv_after ops) Hin) as E.
+  destruct (ap_next_answer ops (AAdd a comm) Hwf Ha) as [o [Er Ho]].
+  cbn [as_step snd] in Ho. rewrite E in Ho. apply aout_equiv_add in Ho. subst o.
+  split; [exact Er|]. rewrite as_after_snoc. cbn [as_step fst]. rewrite E. reflexivity.
+Qed.
+(* a held unaggregated attestation added again (same bit, same committee): nil, nothing changes *)
+Theorem add_dup_absorbed_single : forall ops v a comm, Forall aop_wf ops -> wf_bits (a_bits a) ->
+  In (v, a) (as_singles (as_after ops)) ->
+  count_true (decode (a_bits a)) = 1 -> length (decode (a_bits a)) = length comm ->
+  hd 0 (participants (decode (a_bits a)) comm) = v ->
+  a_answers ops (AAdd a comm) (ARAdd true) /\ as_after (ops ++ [AAdd a comm]) = as_after ops.
+Proof.
+  intros ops v a comm Hwf Ha Hin Hc Hl Hv.
+  pose proof (as_dup_single (as_after ops) v a comm (S_inv_after ops) Hin Hc Hl Hv) as E.
+  destruct (ap_next_answer ops (AAdd a comm) Hwf Ha) as [o [Er Ho]].
+  cbn [as_step snd] in Ho. rewrite E in Ho. apply aout_equiv_add in Ho. subst o.
+  split; [exact Er|]. rewrite as_after_snoc. cbn [as_step fst]. rewrite E. reflexivity.
+Qed.
+(* slashings / exits: the same item (or any item under the same key) again: error, nothing changes *)
+Theorem add_dup_refused_slashings_exits : forall ops x y, In y (ks_after ops) -> k_key y = k_key x ->
+  k_answers ops (KAdd x) (KRAdd false) /\ ks_after (ops ++ [KAdd x]) = ks_after ops.
+Proof.
+  intros ops x y Hin Hk. pose proof (kp_dup_refused ops x y Hin Hk) as E. split.
+  - unfold k_answers. rewrite !kp_refines, ks_fold_run_app. fold (ks_after ops). rewrite E. reflexivity.
+  - rewrite ks_after_snoc, E. reflexivity.
+Qed.
+
+(* ================================================================================================ *)
+(** * add_conflict_reported *)
+Theorem add_conflict_reported_single : forall ops v a' a comm, Forall aop_wf ops -> wf_bits (a_bits a) ->
+  In (v, a') (as_singles (as_after ops)) ->
+  count_true (decode (a_bits a)) = 1 -> length (decode (a_bits a)) = length comm ->
+  hd 0 (participants (decode (a_bits a)) comm) = v ->
+  tepoch a = tepoch a' -> a_data a <> a_data a' ->
+  a_answers ops (AAdd a comm) (ARAdd false) /\ as_after (ops ++ [AAdd a comm]) = as_after ops.
+Proof.
+  intros ops v a' a comm Hwf Ha Hin Hc Hl Hv He Hd.
+  pose proof (as_conflict_single (as_after ops) v a' a comm (S_inv_after ops) Hin Hc Hl Hv He Hd) as E.
+  destruct (ap_next_answer ops (AAdd a comm) Hwf Ha) as [o [Er Ho]].
+  cbn [as_step snd] in Ho. rewrite E in Ho. apply aout_equiv_add in Ho. subst o.
+  split; [exact Er|]. rewrite as_after_snoc. cbn [as_step fst]. rewrite E. reflexivity.
+Qed.
+Theorem add_conflict_reported_aggregate : forall ops a comm, Forall aop_wf ops -> wf_bits (a_bits a) ->
+  2 <= count_true (decode (a_bits a)) -> length (decode (a_bits a)) = length comm ->
+  same_data (a_data a) (as_kept (as_after ops)) = [] ->
+  (forall v, In v (att_parts (a, comm)) -> voted (as_kept (as_after ops)) v (tepoch a) = true) ->
+  a_answers ops (AAdd a comm) (ARAdd false) /\ as_after (ops ++ [AAdd a comm]) = as_after ops.
+Proof.
+  intros ops a comm Hwf Ha Hc Hl Hs Hv.
+  pose proof (as_conflict_aggregate (as_after ops) a comm Hc Hl Hs Hv) as E.
+  destruct (ap_next_answer ops (AAdd a comm) Hwf Ha) as [o [Er Ho]].
+  cbn [as_step snd] in Ho. rewrite E in Ho. apply aout_equiv_add in Ho. subst o.
+  split; [exact Er|]. rewrite as_after_snoc. cbn [as_step fst]. rewrite E. reflexivity.
+Qed.
+
+(* ================================================================================================ *)
+(** * query_sound *)
+Theorem query_sound_attestations : forall ops oslot oidx, Forall aop_wf ops ->
+  exists l, a_answers ops (ASearch oslot oidx) (ARSearch l) /\
+            forall x, In x l -> q_match oslot oidx (a_data x) = true /\ exists comm, In (AAdd x comm) ops.
+Proof.
+  intros ops oslot oidx Hwf. destruct (ap_next_answer ops (ASearch oslot oidx) Hwf I) as [o [Er Ho]].
+  cbn [as_step snd] in Ho. apply aout_equiv_search in Ho. destruct Ho as [l [-> Hp]].
+  exists l. split; [exact Er|]. intros x Hx. apply (as_query_sound ops oslot oidx x).
+  eapply Permutation_in; eassumption.
+Qed.
+Theorem query_sound_slashings_exits : forall ops,
+  k_answers ops KAll (KRAll (ks_after ops)) /\ forall x, In x (ks_after ops) -> In x (k_added ops).
+Proof. intros ops. split; [apply kp_all_is_spec | apply kp_query_sound]. Qed.
+Theorem query_sound_sync : forall ops pos root members, Forall sop_ok ops -> (pos = 0 \/ pos = 1 \/ pos = 2) ->
+  s_answers ops (SSelect pos root members) (SRSelect (ss_select (ss_after ops) pos root members)) /\
+  forall m, In m (ss_select (ss_after ops) pos root members) ->
+    In m (s_added_msgs ops) /\ sm_slot m = pos_slot (ss_cur (ss_after ops)) pos /\ sm_root m = root /\ In (sm_val m) members.
+Proof.
+  intros ops pos root members Hwf Hpos. split; [|apply ss_select_sound].
+  apply (sp_next_answer ops (SSelect pos root members) Hwf). split; [exact I | exact Hpos].
+Qed.
+
+(* ================================================================================================ *)
+(** * query_complete *)
+Theorem query_complete_attestations : forall pre a comm more oslot oidx, Forall aop_wf (pre ++ more) ->
+  In (a, comm) (as_kept (as_after pre)) -> not_pruned_by a more -> q_match oslot oidx (a_data a) = true ->
+  exists l, a_answers (pre ++ more) (ASearch oslot oidx) (ARSearch l) /\ In a l.
+Proof.
+  intros pre a comm more oslot oidx Hwf Hin Hnp Hq.
+  destruct (ap_next_answer (pre ++ more) (ASearch oslot oidx) Hwf I) as [o [Er Ho]].
+  cbn [as_step snd] in Ho. apply aout_equiv_search in Ho. destruct Ho as [l [-> Hp]].
+  exists l. split; [exact Er|]. eapply Permutation_in; [apply Permutation_sym; exact Hp|].
+  apply (as_query_complete pre a comm more); assumption.
+Qed.
+Theorem query_complete_slashings_exits : forall ops x more,
+  snd (ks_step (ks_after ops) (KAdd x)) = KRAdd true ->
+  k_answers (ops ++ KAdd x :: more) KAll (KRAll (ks_after (ops ++ KAdd x :: more))) /\ In x (ks_after (ops ++ KAdd x :: more)).
+Proof. intros ops x more H. split; [apply kp_all_is_spec | apply kp_query_complete; exact H]. Qed.
+
+(* ================================================================================================ *)
+(** * prune_exact *)
+Theorem prune_exact_attestations : forall ops epoch oslot oidx, Forall aop_wf ops ->
+  exists l l', a_answers ops (ASearch oslot oidx) (ARSearch l) /\
+               a_answers (ops ++ [APrune epoch]) (ASearch oslot oidx) (ARSearch l') /\
+               Permutation l' (filter (fun x => includable epoch (tepoch x)) l).
+Proof.
+  intros ops epoch oslot oidx Hwf.
+  destruct (ap_next_answer ops (ASearch oslot oidx) Hwf I) as [o [Er Ho]].
+  cbn [as_step snd] in Ho. apply aout_equiv_search in Ho. destruct Ho as [l [-> Hp]].
+  assert (Hwf' : Forall aop_wf (ops ++ [APrune epoch])) by (apply Forall_app; split; [exact Hwf | constructor; [exact I | constructor]]).
+  destruct (ap_next_answer (ops ++ [APrune epoch]) (ASearch oslot oidx) Hwf' I) as [o' [Er' Ho']].
+  cbn [as_step snd] in Ho'. apply aout_equiv_search in Ho'. destruct Ho' as [l' [-> Hp']].
+  exists l, l'. split; [exact Er|]. split; [exact Er'|].
+  rewrite as_after_snoc in Hp'. cbn [as_step fst] in Hp'.
+  rewrite (proj1 (as_prune_exact (as_after ops) epoch oslot oidx)) in Hp'.
+  eapply Permutation_trans; [exact Hp'|]. apply Permutation_filter. apply Permutation_sym. exact Hp.
+Qed.
+
+(* ================================================================================================ *)
+(** * The pinned snapshot: what the unrepaired code does on the witnesses (machine-checked by evaluation) *)
+Definition wd : adata := mkData 9 1 1 10.
+Definition wcomm : committee := [20; 21; 22; 23].
+Definition w01 : att := mkAtt wd [19] 1.        (* bits {0,1} of 4 *)
+Definition w23 : att := mkAtt wd [28] 2.        (* bits {2,3} of 4 *)
+Definition w12 : att := mkAtt wd [22] 3.        (* bits {1,2} of 4 *)
+Definition w2 : att := mkAtt wd [20] 1.         (* bit {2} of 4: unaggregated *)
+
+(* aggPerValidator is a nil map: the first aggregate panics *)
+Lemma aggpv_nil_refuted : ap_run pinned ap_init_orig [AAdd w01 wcomm] = [ARPanic].
+Proof. vm_compute. reflexivity. Qed.
+(* Search dereferences the missing MinAggregates of data that only has unaggregated attestations *)
+Lemma search_nil_refuted : ap_run pinned ap_init_orig [AAdd w2 wcomm; ASearch None None] = [ARAdd true; ARPanic].
+Proof. vm_compute. reflexivity. Qed.
+(* Participants is never OR-ed (all other repairs applied): the duplicate of the second aggregate and a subset of
+   the union are stored and returned again; the Spec returns each stored aggregate once *)
+Definition fx_no_or : fixes := mkFixes true true false true true true true.
+Lemma participants_not_ored_refuted :
+  ap_run fx_no_or (ap_init_gen fx_no_or) [AAdd w01 wcomm; AAdd w23 wcomm; AAdd w23 wcomm; AAdd w12 wcomm; ASearch None None]
+    = [ARAdd true; ARAdd true; ARAdd true; ARAdd true; ARSearch [w01; w23; w23; w12]] /\
+  as_run as_init [AAdd w01 wcomm; AAdd w23 wcomm; AAdd w23 wcomm; AAdd w12 wcomm; ASearch None None]
+    = [ARAdd true; ARAdd true; ARAdd true; ARAdd true; ARSearch [w01; w23]].
+Proof. split; vm_compute; reflexivity. Qed.
+(* no committee-size check on aggregates (all other repairs applied): a committee longer than the bit list's bytes panics *)
+Definition fx_no_check : fixes := mkFixes true true true false true true true.
+Lemma committee_size_refuted :
+  ap_run fx_no_check (ap_init_gen fx_no_check) [AAdd w01 (wcomm ++ [30; 31; 32; 33; 34; 35])] = [ARPanic] /\
+  as_run as_init [AAdd w01 (wcomm ++ [30; 31; 32; 33; 34; 35])] = [ARAdd false].
+Proof. split; vm_compute; reflexivity. Qed.
+(* ... and a committee one longer reads the delimiter bit as the vote of validator 30 *)
+Lemma committee_size_delimiter_refuted :
+  exists p, add_attestation_gen fx_no_check (ap_init_gen fx_no_check) w01 (wcomm ++ [30]) = Ok (p, true) /\
+            nlookup akey_eqb (30, 1) (p_aggpv p) = Some wd.
+Proof. eexists. split; vm_compute; reflexivity. Qed.
+
+(* sync pool: the six maps are nil after the pinned constructor *)
+Lemma sync_nil_maps_refuted :
+  sp_run pinned sp_init_orig [SAddMsg (mkMsg 0 1 3 1)] = [SRPanic] /\
+  sp_run pinned sp_init_orig [SReset 0; SAddMsg (mkMsg 0 1 3 1)] = [SRReset; SRPanic] /\
+  sp_run pinned sp_init_orig [SAddCon (mkCon max64 1 2 [3] 1)] = [SRPanic] /\
+  ss_run ss_init [SAddMsg (mkMsg 0 1 3 1)] = [SRAdd true].
+Proof. repeat split; vm_compute; reflexivity. Qed.
+(* Select dereferences the nil message of a member that sent nothing (maps initialised) *)
+Definition fx_no_select : fixes := mkFixes true true true true true false true.
+Lemma select_nil_refuted :
+  sp_run fx_no_select (sp_init_gen fx_no_select) [SReset 7; SAddMsg (mkMsg 7 1 3 1); SSelect 1 1 [3; 4]] = [SRReset; SRAdd true; SRPanic] /\
+  ss_run ss_init [SReset 7; SAddMsg (mkMsg 7 1 3 1); SSelect 1 1 [3; 4]] = [SRReset; SRAdd true; SRSelect [mkMsg 7 1 3 1]].
+Proof. split; vm_compute; reflexivity. Qed.
+(* Reset that skips one slot throws away the messages of the slot that is now the previous one *)
+Definition fx_no_skip : fixes := mkFixes true true true true true true false.
+Lemma reset_skip_refuted :
+  sp_run fx_no_skip (sp_init_gen fx_no_skip) [SReset 7; SAddMsg (mkMsg 8 1 3 1); SReset 9; SSelect 0 1 [3]]
+    = [SRReset; SRAdd true; SRReset; SRSelect []] /\
+  ss_run ss_init [SReset 7; SAddMsg (mkMsg 8 1 3 1); SReset 9; SSelect 0 1 [3]]
+    = [SRReset; SRAdd true; SRReset; SRSelect [mkMsg 8 1 3 1]].
+Proof. split; vm_compute; reflexivity. Qed.
+(* the repaired model on the same witnesses *)
+Lemma witnesses_repaired :
+  ap_run fixed ap_init [AAdd w01 wcomm; AAdd w23 wcomm; AAdd w23 wcomm; AAdd w12 wcomm; ASearch None None]
+    = [ARAdd true; ARAdd true; ARAdd true; ARAdd true; ARSearch [w01; w23]] /\
+  ap_run fixed ap_init [AAdd w2 wcomm; ASearch None None] = [ARAdd true; ARSearch []] /\
+  ap_run fixed ap_init [AAdd w01 (wcomm ++ [30])] = [ARAdd false] /\
+  sp_run fixed sp_init [SReset 7; SAddMsg (mkMsg 8 1 3 1); SReset 9; SSelect 0 1 [3; 4]]
+    = [SRReset; SRAdd true; SRReset; SRSelect [mkMsg 8 1 3 1]].
+Proof. repeat split; vm_compute; reflexivity. Qed.
